@@ -487,6 +487,8 @@ func (s *Server) Clear() {
 
 	drainChannel(s.InvokeDoneChan)
 	s.Release()
+	// an init error cached for the environment that was just torn down must not answer failures of later ones
+	s.setCachedInitErrorResponse(nil)
 }
 
 func (s *Server) SendRuntimeReady() error {
